@@ -1219,7 +1219,7 @@ Proof.
   - intros x Hx a m Ha Hv. rewrite !Hheight in *.
     rewrite (reads_shape s s1 x) in Ha; [|intros m'; right; apply Hshape|apply (rnp_spec_binds _ _ _ _ H)].
     rewrite (vsrc_shape s s1 a Hshape) in Hv. eapply (po_reads _ P); eauto.
-  - rewrite Es1. cbn. apply (po_setDuring _ P).
+  - intros v Hv. destruct (Hshape v) as [-> _]. apply (po_setDuring _ P). rewrite Es1 in Hv. exact Hv.
   - rewrite Es1. cbn. apply (po_setRemoved _ P).
 Qed.
 
@@ -1404,41 +1404,8 @@ Proof.
   - intros n. rewrite Hnd. apply NL.
   - intros n. rewrite Hnd. apply HR.
   - intros n. rewrite Hnd. intros H0. apply (reads_below_ext s); auto.
+  - intros v. rewrite Hd, Hnd. apply SD.
   - congruence.
-  - congruence.
-Qed.
-
-(** ** C04, pass level: on a bind-free graph the result of ParallelStabilize does not depend on
-    the order in which the nodes of each height block are processed. *)
-Theorem pass_schedule_independent sched1 sched2 p s t e :
-  fair sched1 -> fair sched2 -> quiet_all p -> pass_ok s ->
-  parStabilizeS sched1 p s = Ok (t, e) ->
-  exists t', parStabilizeS sched2 p s = Ok (t', e) /\ t ≈ t' /\ (status s = 0 -> e = None).
-Proof.
-  intros F1 F2 Hq P H. unfold parStabilizeS in *.
-  destruct (Z.eqb_spec (status s) 0) as [Est|Est]; cbn [negb] in *.
-  2: { injection H as <- <-. exists s. split; [reflexivity|]. split; [apply sim_refl|contradiction]. }
-  set (s0 := emit EvPassStart (s <| status := 1 |>)) in *.
-  assert (P0 : pass_ok s0) by (apply (pass_ok_core s); auto).
-  apply rbind_ok in H as ([[s1 e1] al1] & H1 & H).
-  destruct (parLoopS_sim sched1 sched2 p F1 F2 Hq _ s0 s0 [] [] _ P0 P0 (sim_refl _) (Permutation_refl _) H1)
-    as ([[s1' e1'] al1'] & H1' & (S1 & S2 & S3) & P1 & P1' & E1). cbn in S1, S2, S3, P1, P1', E1. subst e1 e1'.
-  rewrite H1'. cbn [rbind].
-  apply rbind_ok in H as (s2 & H2 & H). apply rbind_ok in H as (s3 & H3 & [= <- <-]).
-  rewrite requeue_char in H2. apply rbind_ok in H2 as (w2 & Hw2 & [= <-]).
-  rewrite requeue_char.
-  assert (Hnd : forall x, nd s1' x = nd s1 x) by (intros x; symmetry; apply nd_ext, (sim_nodes _ _ S1)).
-  assert (Hfil : filter (fun n => height (nd s1 n) <> unset) al1 ≡ₚ filter (fun n => height (nd s1' n) <> unset) al1').
-  { rewrite S3. apply Permutation_refl'. apply list_filter_iff. intros x. rewrite Hnd. reflexivity. }
-  assert (Hpos : forall c, c ∈ filter (fun n => height (nd s1 n) <> unset) al1 -> 0 <= height (nd s1 c)).
-  { intros c [Hc _]%elem_of_list_filter. pose proof (po_hrange _ P1 c). unfold unset in Hc. lia. }
-  destruct (addAll_perm _ _ _ Hfil _ (heap s1') _ Hpos (go_cnt _ (po_graph _ P1)) (sim_heap _ _ S1) Hw2)
-    as (w2' & Hw2' & Sw2).
-  rewrite (addAll_ext _ (fun c => height (nd s1 c))) by (intros; apply f_equal, Hnd).
-  rewrite Hw2'. cbn [rbind].
-  assert (S2' : (s1 <| heap := w2 |>) ≈ (s1' <| heap := w2' |>)) by (apply sim_set_heap; assumption).
-  destruct (stabilizeEnd_sim _ _ None s3 S2' (po_setDuring _ P1) (po_setRemoved _ P1) H3) as (s3' & H3' & S3').
-  rewrite H3'. cbn [rbind]. exists s3'. split; [reflexivity|]. split; [exact S3'|reflexivity].
 Qed.
 
 Lemma parLoopS_queue_order fuel : forall p s al, parLoopS queue_order fuel p s al = parLoop fuel p s al.
@@ -1563,7 +1530,7 @@ Qed.
 Lemma pass_okb_sound s : pass_okb s = true -> pass_ok s.
 Proof.
   unfold pass_okb. rewrite !andb_true_iff. intros (((((H1 & H2) & H3) & H4) & H5) & H6).
-  apply bool_decide_eq_true in H5, H6. rewrite forallb_forall in H3.
+  apply bool_decide_eq_true in H6. rewrite forallb_forall in H3, H5.
   assert (H : forall n, is_lhs (nkind (nd s n)) = false /\ -1 <= height (nd s n) /\
                         (0 <= height (nd s n) -> reads_below s n (height (nd s n)))).
   { apply (forall_nodes _ s _ H4).
@@ -1571,22 +1538,11 @@ Proof.
       split; [destruct (is_lhs _); [discriminate|reflexivity]|]. split; [lia|].
       intros Hh. destruct A3 as [A3|A3]; [lia|apply reads_belowb_sound, A3].
     - intros n Hn. rewrite (nd_missing _ _ Hn). cbn. split; [reflexivity|]. unfold unset. split; [lia|]. intros X. lia. }
-  constructor; try assumption; try (intros n; apply (H n)).
+  constructor; try assumption; try (intros n; apply (H n)); try (intros v Hv; apply H5, elem_of_list_In, Hv).
   - apply graph_okb_sound, H1.
   - apply heap_invb_sound, H2.
   - intros n Hn. apply elem_of_list_In, H3 in Hn. rewrite andb_true_iff in Hn. destruct Hn as [A1 A2].
     apply bool_decide_eq_true in A1. split; [exact A1|lia].
-Qed.
-
-(** the model's own schedule (queue order) against any other *)
-Corollary parStabilize_any_schedule sched p s t e :
-  fair sched -> quiet_all p -> pass_ok s -> parStabilize p s = Ok (t, e) ->
-  exists t', parStabilizeS sched p s = Ok (t', e) /\ t ≈ t'.
-Proof.
-  intros F Hq P H. rewrite <- parStabilizeS_queue_order in H.
-  destruct (pass_schedule_independent queue_order sched p s t e) as (t' & H' & S & _); auto.
-  - intros s0 b. reflexivity.
-  - eauto.
 Qed.
 
 (** * I. Node functions that set vars *)
@@ -2534,4 +2490,474 @@ Proof.
     + apply bool_decide_eq_true in Hm. contradiction.
     + rewrite forallb_forall in Hm. apply elem_of_list_In, Hm in Hvn.
       apply negb_true_iff, bool_decide_eq_false in Hvn. contradiction.
+Qed.
+
+(** * L. The pass with node functions that set vars *)
+Lemma elem_of_insert_sorted x n l : x ∈ insert_sorted n l <-> x = n \/ x ∈ l.
+Proof.
+  induction l as [|y l IH]; cbn [insert_sorted].
+  - rewrite elem_of_list_singleton. split; [auto|intros [?|H]; [assumption|inversion H]].
+  - destruct (Nat.ltb_spec n y); [rewrite elem_of_cons; reflexivity|].
+    destruct (Nat.eqb_spec n y) as [->|Hne].
+    + split; [auto|]. intros [->|?]; [left|assumption].
+    + rewrite !elem_of_cons, IH. tauto.
+Qed.
+
+(** ** the sets respect ≈ *)
+Lemma sim_varSetD s s' v x : s ≈ s' -> varSetD s v x ≈ varSetD s' v x.
+Proof.
+  intros Hs. pose proof Hs as [Sn Sb Snx Sr So Sh Sa Si Sst Sstat Snn Ssd Ssr Shd Smx Sl].
+  unfold varSetD. rewrite (nd_ext s s' v Sn). destruct (_ && _ && _); [exact Hs|].
+  constructor; cbn; try assumption; congruence.
+Qed.
+
+Lemma sim_setAct s s' a : s ≈ s' -> setAct s a ≈ setAct s' a.
+Proof.
+  intros Hs. destruct a as [k|v x|v d]; cbn [setAct]; [exact Hs|apply sim_varSetD, Hs|].
+  rewrite (nd_ext s s' v (sim_nodes _ _ Hs)). apply sim_varSetD, Hs.
+Qed.
+
+Lemma sim_setsT acts : forall s s', s ≈ s' -> setsT acts s ≈ setsT acts s'.
+Proof.
+  induction acts as [|a acts IH]; intros s s' Hs; [exact Hs|]. rewrite !setsT_cons. apply IH, sim_setAct, Hs.
+Qed.
+
+Lemma sim_setsAllA A l : forall s s', s ≈ s' -> setsAllA A l s ≈ setsAllA A l s'.
+Proof.
+  induction l as [|n l IH]; intros s s' Hs; [exact Hs|]. cbn [setsAllA foldl]. apply IH, sim_setsT, Hs.
+Qed.
+
+(** ** the sets keep the pass invariant *)
+Lemma setDuring_varSetD s v x u : u ∈ setDuring (varSetD s v x) -> u = v \/ u ∈ setDuring s.
+Proof.
+  unfold varSetD. destruct (_ && _ && _); [auto|]. cbn. apply elem_of_insert_sorted.
+Qed.
+
+Lemma setDuring_setAct s a u : u ∈ setDuring (setAct s a) -> target a = Some u \/ u ∈ setDuring s.
+Proof.
+  destruct a as [k|v x|v d]; cbn [setAct target]; [auto| |]; intros [->|?]%setDuring_varSetD; auto.
+Qed.
+
+Lemma setDuring_setsT acts : forall s u, u ∈ setDuring (setsT acts s) -> u ∈ targets acts \/ u ∈ setDuring s.
+Proof.
+  induction acts as [|a acts IH]; intros s u Hu; [auto|]. rewrite setsT_cons in Hu.
+  destruct (IH _ _ Hu) as [H|H].
+  - left. rewrite targets_cons. destruct (target a); [right|]; exact H.
+  - destruct (setDuring_setAct _ _ _ H) as [E|?]; [|auto]. left. rewrite targets_cons, E. left.
+Qed.
+
+Lemma pass_ok_setsT acts s :
+  (forall v, v ∈ targets acts -> isVarKind (nkind (nd s v)) = true) -> pass_ok s -> pass_ok (setsT acts s).
+Proof.
+  intros Hv [G I Q NL HR RD SD SR].
+  pose proof (pend_eq_setsT acts s) as PE. pose proof (rest_eq_setsT acts s) as RE.
+  set (t := setsT acts s) in *.
+  destruct RE as (Rb&Rnx&Rr&Ro&Rh&Ra&Ri&Rst&Rstat&Rnn&Rsr&Rhd&Rmx&Rlog&Rhas).
+  assert (Hheight : forall m, height (nd t m) = height (nd s m)) by (intros m; apply (pend_proj height); auto).
+  constructor.
+  - destruct G as [G1 G2 G3 G4]. constructor.
+    + rewrite Rh. exact G1.
+    + intros n c. rewrite (pend_proj children s t n PE), (pend_proj parents s t c PE) by auto. apply G2.
+    + intros c q. rewrite (pend_proj parents s t c PE), !Hheight by auto. apply G3.
+    + intros x. rewrite (pend_proj changedAt s t x PE), Rst by auto. apply G4.
+  - rewrite Rh. exact I.
+  - intros n. rewrite Rh, Hheight. intros Hn. destruct (Q n Hn) as [Q1 Q2]. split; [apply Rhas, Q1|exact Q2].
+  - intros n. rewrite (pend_proj nkind s t n PE) by auto. apply NL.
+  - intros n. rewrite Hheight. apply HR.
+  - intros n. rewrite Hheight. intros H0 a m Ha Hm. rewrite Hheight.
+    rewrite (reads_pend s t n PE Rb) in Ha. rewrite (vsrc_shape s t a (pend_shape s t PE)) in Hm. eapply RD; eauto.
+  - intros v Hin. rewrite (pend_proj nkind s t v PE) by auto.
+    destruct (setDuring_setsT acts s v Hin) as [H|H]; [apply Hv, H|apply SD, H].
+  - rewrite Rsr. exact SR.
+Qed.
+
+Lemma pass_ok_setsAllA A l : forall s,
+  (forall n v, n ∈ l -> v ∈ targets (A n) -> isVarKind (nkind (nd s v)) = true) -> pass_ok s -> pass_ok (setsAllA A l s).
+Proof.
+  induction l as [|n l IH]; intros s Hv P; [exact P|]. cbn [setsAllA foldl]. apply IH.
+  - intros m v Hm Hin. rewrite (pend_proj nkind s _ v (pend_eq_setsT (A n) s)) by auto. apply (Hv m v); [right|]; assumption.
+  - apply pass_ok_setsT; [|exact P]. intros v Hin. apply (Hv n v); [left|exact Hin].
+Qed.
+
+(** ** a block with sets, from ≈ states *)
+Lemma sinv_of_sets_ok p s B h : ok_state s B h -> sets_ok p s B -> sinv p (nodeActs p s) s B h.
+Proof. intros Ok [S1 S2 S3 S4]. constructor; auto. Qed.
+
+Lemma sets_ok_sim p s s' B : s ≈ s' -> sets_ok p s B -> sets_ok p s' B.
+Proof.
+  intros Hs [S1 S2 S3 S4].
+  assert (Hna : forall n, nodeActs p s' n = nodeActs p s n).
+  { intros n. apply nodeActs_kind. rewrite (nd_ext s s' n (sim_nodes _ _ Hs)). reflexivity. }
+  constructor.
+  - rewrite <- (sim_status _ _ Hs). exact S1.
+  - intros n a. rewrite Hna. apply S2.
+  - intros n v. rewrite Hna, <- (nd_ext s s' v (sim_nodes _ _ Hs)). apply S3.
+  - intros n m v. rewrite !Hna. apply S4.
+Qed.
+
+Lemma run_perm_sets fuel p B h l l' s s' e al al' r :
+  ok_state s B h -> sets_ok p s B -> l ≡ₚ l' -> (forall x, x ∈ l -> x ∈ B) -> NoDup l -> s ≈ s' -> al ≡ₚ al' ->
+  rfold (block_step fuel p) l (s, e, al) = Ok r ->
+  exists r', rfold (block_step fuel p) l' (s', e, al') = Ok r' /\ sim_blk r r'.
+Proof.
+  intros Ok SO Hp Hl Hnd Hs Hal H.
+  set (A := nodeActs p s).
+  assert (Hl' : forall x, x ∈ l' -> x ∈ B) by (intros x Hx; apply Hl; rewrite Hp; exact Hx).
+  assert (HA : forall n, nodeActs p s' n = A n).
+  { intros n. apply nodeActs_kind. rewrite (nd_ext s s' n (sim_nodes _ _ Hs)). reflexivity. }
+  pose proof (sinv_of_sets_ok p s B h Ok SO) as SI. fold A in SI.
+  assert (SI' : sinv p A s' B h).
+  { pose proof (sinv_of_sets_ok p s' B h (ok_state_sim _ _ _ _ Hs Ok) (sets_ok_sim p s s' B Hs SO)) as X.
+    destruct X as [X1 X2 X3 X4 X5]. constructor; auto.
+    - intros n a Hn Ha. apply (X4 n a Hn). rewrite HA. exact Ha.
+    - intros n v Hn Hv. apply (X5 n v Hn). rewrite HA. exact Hv. }
+  rewrite (run_factor fuel p A B h l s e al SI Hl) in H.
+  rewrite (run_factor fuel p A B h l' s' e al' SI' Hl').
+  assert (Ssim : setsAllA A l s ≈ setsAllA A l' s').
+  { rewrite (setsAllA_perm A l l' Hp Hnd).
+    - apply sim_setsAllA, Hs.
+    - intros n m v Hn Hm. apply (so_disjoint _ _ _ SO); apply Hl; assumption. }
+  assert (OkS : ok_state (setsAllA A l s) B h).
+  { eapply ok_state_pend; [apply pend_eq_setsAllA|apply rest_eq_setsAllA|exact Ok]. }
+  exact (run_perm fuel [] B h (quiet_nil B) l l' _ _ e al al' r Hp OkS Hl Hnd Ssim Hal H).
+Qed.
+
+Lemma run_pass_ok_sets fuel p B h l s e al r :
+  pass_ok s -> ok_state s B h -> sets_ok p s B -> (forall x, x ∈ l -> x ∈ B) ->
+  rfold (block_step fuel p) l (s, e, al) = Ok r -> pass_ok r.1.1 /\ r.1.2 = e /\ status r.1.1 = 1.
+Proof.
+  intros P Ok SO Hl H. set (A := nodeActs p s).
+  pose proof (sinv_of_sets_ok p s B h Ok SO) as SI. fold A in SI.
+  rewrite (run_factor fuel p A B h l s e al SI Hl) in H.
+  assert (PS : pass_ok (setsAllA A l s)).
+  { apply pass_ok_setsAllA; [|exact P]. intros n v Hn Hv. apply (so_vars _ _ _ SO n v (Hl n Hn) Hv). }
+  assert (OkS : ok_state (setsAllA A l s) B h).
+  { eapply ok_state_pend; [apply pend_eq_setsAllA|apply rest_eq_setsAllA|exact Ok]. }
+  destruct (run_pass_ok fuel [] B h (quiet_nil B) l _ e al r PS OkS Hl H) as [P1 E1].
+  split; [exact P1|]. split; [exact E1|].
+  (* status *)
+  assert (Hst : status (setsAllA A l s) = 1).
+  { destruct (rest_eq_setsAllA A l s) as (_&_&_&_&_&_&_&_&Rstat&_). rewrite Rstat. apply (so_status _ _ _ SO). }
+  clear -H Hst OkS Hl. revert H Hst OkS. generalize (setsAllA A l s) as t. revert e al r.
+  induction l as [|n l IH]; intros e al r t H Hst OkS.
+  - injection H as <-. exact Hst.
+  - destruct (step_total fuel [] B h (quiet_nil B) t e al n OkS (Hl n ltac:(left))) as (t1 & E1 & R1 & Ok1).
+    cbn [rfold] in H. rewrite E1 in H. cbn [rbind] in H.
+    apply (IH (fun x Hx => Hl x ltac:(right; exact Hx)) _ _ _ _ H); [|exact Ok1].
+    apply rnp_spec_inv in R1 as (_ & w & _ & ->). exact Hst.
+Qed.
+
+(** ** the deferred sets at the end of the pass respect ≈ *)
+Definition varApply (s : state) (v : nid) : state :=
+  match pending (nd s v) with
+  | Some x => if recomputedAt (nd s v) =? stabNum s then s
+              else upd s v (fun y => y <| value := x |> <| pending := None |>)
+  | None => s
+  end.
+
+Lemma stabilizeNode_var fuel p s v : isVarKind (nkind (nd s v)) = true -> stabilizeNode fuel p s v = ok (varApply s v).
+Proof.
+  intros Hk. unfold stabilizeNode, varApply. destruct (nkind (nd s v)); try discriminate.
+  destruct (pending (nd s v)); [destruct (_ =? _)|]; reflexivity.
+Qed.
+
+Definition hk_eq (s t : state) : Prop := forall m, nkind (nd t m) = nkind (nd s m) /\ height (nd t m) = height (nd s m).
+
+Lemma hk_eq_refl s : hk_eq s s. Proof. intros m; split; reflexivity. Qed.
+Lemma hk_eq_trans s t u : hk_eq s t -> hk_eq t u -> hk_eq s u.
+Proof. intros H1 H2 m. destruct (H1 m), (H2 m). split; congruence. Qed.
+
+Lemma sim_upd s s' v f : s ≈ s' -> upd s v f ≈ upd s' v f.
+Proof. intros []. constructor; cbn; try assumption. congruence. Qed.
+
+Lemma sim_varApply s s' v : s ≈ s' -> varApply s v ≈ varApply s' v.
+Proof.
+  intros Hs. unfold varApply. rewrite (nd_ext s s' v (sim_nodes _ _ Hs)), (sim_stabNum _ _ Hs).
+  destruct (pending (nd s' v)); [destruct (_ =? _)|]; auto using sim_upd.
+Qed.
+
+Lemma hk_varApply s v : hk_eq s (varApply s v).
+Proof.
+  unfold varApply. destruct (pending (nd s v)); [destruct (_ =? _)|]; try apply hk_eq_refl.
+  intros m. split; [apply (nd_upd_proj nkind)|apply (nd_upd_proj height)]; reflexivity.
+Qed.
+
+Lemma setStale_sim s s' v t : s ≈ s' -> -1 <= height (nd s v) -> setStale s v = Ok t ->
+  exists t', setStale s' v = Ok t' /\ t ≈ t' /\ hk_eq s t /\ (0 <= Heap.cnt (heap s) -> 0 <= Heap.cnt (heap t)).
+Proof.
+  intros Hs Hh H. unfold setStale in *. rewrite <- (nd_ext s s' v (sim_nodes _ _ Hs)).
+  destruct (Z.eqb_spec (height (nd s v)) unset) as [E|E].
+  { injection H as <-. exists s'. split; [reflexivity|]. split; [exact Hs|]. split; [apply hk_eq_refl|auto]. }
+  rewrite <- (sim_stabNum _ _ Hs).
+  set (u := upd s v (set setAt (fun _ => stabNum s))) in *. set (u' := upd s' v (set setAt (fun _ => stabNum s))).
+  assert (Su : u ≈ u') by apply sim_upd, Hs.
+  assert (Hku : hk_eq s u).
+  { intros m. split; [apply (nd_upd_proj nkind)|apply (nd_upd_proj height)]; reflexivity. }
+  change (inHeap u' v) with (Heap.mem (heap s') v). change (inHeap u v) with (Heap.mem (heap s) v) in H.
+  rewrite <- (heap_sim_mem _ _ v (sim_heap _ _ Hs)).
+  destruct (Heap.mem (heap s) v).
+  { injection H as <-. exists u'. split; [reflexivity|]. split; [exact Su|]. split; [exact Hku|auto]. }
+  unfold heapAdd in *. apply rbind_ok in H as (w & Hw & [= <-]).
+  assert (Hhu : height (nd u v) = height (nd s v)) by apply Hku.
+  rewrite Hhu in Hw. assert (H0 : 0 <= height (nd s v)) by (unfold unset in E; lia).
+  destruct (add_sim _ _ _ _ _ (sim_heap _ _ Su) H0 Hw) as (w' & Hw' & Sw).
+  assert (height (nd u' v) = height (nd s v)) as ->.
+  { unfold u'. rewrite (nd_upd_proj height) by reflexivity. rewrite <- (nd_ext s s' v (sim_nodes _ _ Hs)). reflexivity. }
+  change (heap u') with (heap s') in *. change (heap u) with (heap s) in *. rewrite Hw'. cbn [rbind].
+  eexists. split; [reflexivity|]. split; [apply sim_set_heap; assumption|]. split.
+  - intros m. apply Hku.
+  - intros Hc. cbn. rewrite (add_cnt _ _ _ _ H0 Hw). lia.
+Qed.
+
+Definition dstep (s : state) (v : nid) : res state :=
+  '(s, _) <-! stabilizeNode 0 [] s v; setStale s v.
+
+Lemma dstep_sim s s' v t : s ≈ s' -> isVarKind (nkind (nd s v)) = true -> -1 <= height (nd s v) ->
+  dstep s v = Ok t ->
+  exists t', dstep s' v = Ok t' /\ t ≈ t' /\ hk_eq s t /\ (0 <= Heap.cnt (heap s) -> 0 <= Heap.cnt (heap t)).
+Proof.
+  intros Hs Hk Hh H. unfold dstep in *.
+  rewrite (stabilizeNode_var 0 [] s v Hk) in H.
+  rewrite (stabilizeNode_var 0 [] s' v) by (rewrite <- (nd_ext s s' v (sim_nodes _ _ Hs)); exact Hk).
+  cbn [ok rbind] in *.
+  pose proof (hk_varApply s v) as HK.
+  destruct (setStale_sim _ _ v t (sim_varApply s s' v Hs)) as (t' & H' & St & HKt & Hc); [| exact H|].
+  { destruct (HK v) as [_ ->]. exact Hh. }
+  exists t'. split; [exact H'|]. split; [exact St|]. split; [eapply hk_eq_trans; eassumption|].
+  intros X. apply Hc. unfold varApply. destruct (pending _); [destruct (_ =? _)|]; exact X.
+Qed.
+
+Lemma dsteps_sim L : forall s s' t, s ≈ s' ->
+  (forall v, v ∈ L -> isVarKind (nkind (nd s v)) = true) -> (forall m, -1 <= height (nd s m)) ->
+  rfold dstep L s = Ok t -> exists t', rfold dstep L s' = Ok t' /\ t ≈ t'.
+Proof.
+  induction L as [|v L IH]; intros s s' t Hs Hk Hh H.
+  - injection H as <-. exists s'. auto.
+  - cbn [rfold] in *. apply rbind_ok in H as (s1 & H1 & H).
+    destruct (dstep_sim s s' v s1 Hs (Hk v ltac:(left)) (Hh v) H1) as (s1' & H1' & S1 & HK & _).
+    rewrite H1'. cbn [rbind]. eapply IH; [exact S1| | |exact H].
+    + intros u Hu. destruct (HK u) as [-> _]. apply Hk. right. exact Hu.
+    + intros m. destruct (HK m) as [_ ->]. apply Hh.
+Qed.
+
+Lemma applyDeferredSets_sim s s' t : s ≈ s' ->
+  (forall v, v ∈ setRemoved s ++ setDuring s -> isVarKind (nkind (nd s v)) = true) ->
+  (forall m, -1 <= height (nd s m)) ->
+  applyDeferredSets s = Ok t -> exists t', applyDeferredSets s' = Ok t' /\ t ≈ t'.
+Proof.
+  intros Hs Hk Hh H. unfold applyDeferredSets in *.
+  rewrite <- (sim_setRemoved _ _ Hs), <- (sim_setDuring _ _ Hs).
+  apply rbind_ok in H as (s1 & H1 & [= <-]).
+  destruct (dsteps_sim _ s s' s1 Hs Hk Hh H1) as (s1' & H1' & S1).
+  change (rfold dstep (setRemoved s ++ setDuring s) s' = Ok s1') in H1'. unfold dstep in H1'. rewrite H1'.
+  cbn [rbind]. eexists. split; [reflexivity|]. destruct S1. constructor; cbn; try assumption; reflexivity.
+Qed.
+
+(** the state the deferred sets are applied to *)
+Definition preEnd (s : state) (e : option err) : state :=
+  s <| log := endEvs s e ++ log s |> <| status := 2 |> <| handlers := [] |> <| stabNum := stabNum s + 1 |>.
+
+Lemma stabilizeEnd_pre s e : stabilizeEnd s e = (s1 <-! applyDeferredSets (preEnd s e); Ok (s1 <| status := 0 |>)).
+Proof.
+  unfold stabilizeEnd, runUpdateHandlers. rewrite foldl_handlers.
+  assert (forall u u', u = u' -> (s1 <-! applyDeferredSets u; Ok (s1 <| status := 0 |>)) = (s1 <-! applyDeferredSets u'; Ok (s1 <| status := 0 |>))) as X by (intros ? ? ->; reflexivity).
+  apply X. apply state_ext; cbn; try reflexivity.
+  unfold endEvs. rewrite <- app_assoc. cbn. f_equal. f_equal. apply map_ext. intros k. apply handlerEv_ext; reflexivity.
+Qed.
+
+Lemma stabilizeEnd_sim2 s s' e t : s ≈ s' ->
+  (forall v, v ∈ setRemoved s ++ setDuring s -> isVarKind (nkind (nd s v)) = true) ->
+  (forall m, -1 <= height (nd s m)) ->
+  stabilizeEnd s e = Ok t -> exists t', stabilizeEnd s' e = Ok t' /\ t ≈ t'.
+Proof.
+  intros Hs Hk Hh H. rewrite stabilizeEnd_pre in *. apply rbind_ok in H as (s1 & H1 & [= <-]).
+  assert (Sp : preEnd s e ≈ preEnd s' e).
+  { destruct Hs as [Sn Sb Snx Sr So Sh Sa Si Sst Sstat Snn Ssd Ssr Shd Smx Sl]. constructor; cbn; try assumption; try reflexivity.
+    - rewrite Sst. reflexivity.
+    - unfold endEvs. rewrite Shd.
+      rewrite (map_ext (handlerEv s) (handlerEv s')) by (intros k; symmetry; apply handlerEv_ext; congruence).
+      apply Permutation_app_head. exact Sl. }
+  destruct (applyDeferredSets_sim _ _ s1 Sp Hk Hh H1) as (s1' & H1' & S1).
+  rewrite H1'. cbn [rbind]. eexists. split; [reflexivity|]. destruct S1. constructor; cbn; try assumption; reflexivity.
+Qed.
+
+Lemma tgt_target a : tgt a = target a.
+Proof. destruct a; reflexivity. Qed.
+
+Lemma plan_par_ok_hk p s t : hk_eq s t -> plan_par_ok p s -> plan_par_ok p t.
+Proof.
+  intros HK [P1 P2 P3]. constructor.
+  - exact P1.
+  - intros n w a v Ha Hv. destruct (HK v) as [-> _]. eapply P2; eauto.
+  - intros n m w w' a a' v Hne Hh. destruct (HK n) as [_ E1], (HK m) as [_ E2]. rewrite E1, E2 in Hh. eapply P3; eauto.
+Qed.
+
+Lemma nodeActs_in p s n a : a ∈ nodeActs p s n -> exists w, a ∈ actions_of p n w.
+Proof. unfold nodeActs. destruct (nkind (nd s n)); try (intros H; inversion H; fail); eauto. Qed.
+
+Lemma sets_ok_of_plan p t B h : plan_par_ok p t -> status t = 1 -> (forall n, n ∈ B -> height (nd t n) = h) -> sets_ok p t B.
+Proof.
+  intros [P1 P2 P3] Hst Hh. constructor.
+  - exact Hst.
+  - intros n a _ Ha. destruct (nodeActs_in _ _ _ _ Ha) as [w Hw]. specialize (P1 n w a Hw). destruct a; [contradiction|reflexivity|reflexivity].
+  - intros n v _ Hv. unfold targets in Hv. apply elem_of_list_omap in Hv as (a & Ha & Ev).
+    destruct (nodeActs_in _ _ _ _ Ha) as [w Hw]. apply (P2 n w a v Hw). rewrite tgt_target. exact Ev.
+  - intros n m v Hn Hm Hne Hvn Hvm. unfold targets in Hvn, Hvm.
+    apply elem_of_list_omap in Hvn as (a & Ha & Ea). apply elem_of_list_omap in Hvm as (a' & Ha' & Ea').
+    destruct (nodeActs_in _ _ _ _ Ha) as [w Hw]. destruct (nodeActs_in _ _ _ _ Ha') as [w' Hw'].
+    apply (P3 n m w w' a a' v Hne); try assumption; try (rewrite tgt_target; assumption).
+    rewrite (Hh n Hn), (Hh m Hm). reflexivity.
+Qed.
+
+Lemma pend_hk s t : pend_eq s t -> hk_eq s t.
+Proof. intros PE m. split; [apply (pend_proj nkind)|apply (pend_proj height)]; auto. Qed.
+
+Lemma run_quiet_hk fuel B h l : forall t e al r, ok_state t B h -> (forall x, x ∈ l -> x ∈ B) ->
+  rfold (block_step fuel []) l (t, e, al) = Ok r -> hk_eq t r.1.1.
+Proof.
+  induction l as [|n l IH]; intros t e al r Ok Hl H.
+  - injection H as <-. apply hk_eq_refl.
+  - destruct (step_total fuel [] B h (quiet_nil B) t e al n Ok (Hl n ltac:(left))) as (t1 & E1 & R1 & Ok1).
+    cbn [rfold] in H. rewrite E1 in H. cbn [rbind] in H.
+    eapply hk_eq_trans; [|eapply IH; [exact Ok1| |exact H]].
+    + intros m. split; [apply (rnp_spec_proj nkind t n t1 None m)|apply (rnp_spec_proj height t n t1 None m)];
+        first [exact R1|intros; apply localF_frame].
+    + intros; apply Hl; right; assumption.
+Qed.
+
+Lemma run_hk_sets fuel p B h l s e al r :
+  ok_state s B h -> sets_ok p s B -> (forall x, x ∈ l -> x ∈ B) ->
+  rfold (block_step fuel p) l (s, e, al) = Ok r -> hk_eq s r.1.1.
+Proof.
+  intros Ok SO Hl H. set (A := nodeActs p s).
+  pose proof (sinv_of_sets_ok p s B h Ok SO) as SI. fold A in SI.
+  rewrite (run_factor fuel p A B h l s e al SI Hl) in H.
+  assert (OkS : ok_state (setsAllA A l s) B h).
+  { eapply ok_state_pend; [apply pend_eq_setsAllA|apply rest_eq_setsAllA|exact Ok]. }
+  eapply hk_eq_trans; [apply pend_hk, pend_eq_setsAllA|]. eapply run_quiet_hk; eassumption.
+Qed.
+
+Lemma parLoopS_sim2 sched1 sched2 p : fair sched1 -> fair sched2 ->
+  forall fuel s s' al al' r, pass_ok s -> pass_ok s' -> s ≈ s' -> al ≡ₚ al' ->
+  plan_par_ok p s -> status s = 1 ->
+  parLoopS sched1 fuel p s al = Ok r ->
+  exists r', parLoopS sched2 fuel p s' al' = Ok r' /\ sim_blk r r' /\
+             pass_ok r.1.1 /\ pass_ok r'.1.1 /\ r.1.2 = None.
+Proof.
+  intros F1 F2. induction fuel as [|fuel IH]; intros s s' al al' r P P' Hs Hal PP Hst H; [discriminate|].
+  cbn [parLoopS] in *. rewrite <- (hs_cnt _ _ (sim_heap _ _ Hs)).
+  destruct (Heap.cnt (heap s) <=? 0).
+  { injection H as <-. eexists. split; [reflexivity|]. cbn. split; [|auto]. split; [exact Hs|]. split; [reflexivity|exact Hal]. }
+  destruct (Heap.takeMinBlock (heap s)) as [b w] eqn:Et.
+  destruct (Heap.takeMinBlock (heap s')) as [b' w'] eqn:Et'.
+  destruct (takeMinBlock_sim _ _ _ _ _ _ (sim_heap _ _ Hs) Et Et') as [Hb Hw].
+  destruct (block_of_pass s b w P Et) as (Pw & h & Okb).
+  destruct (block_of_pass s' b' w' P' Et') as (Pw' & h' & Okb').
+  set (sw := s <| heap := w |>) in *. set (sw' := s' <| heap := w' |>) in *.
+  assert (Hsw : sw ≈ sw') by (apply sim_set_heap; assumption).
+  destruct (parts_nolhs sw b (po_nolhs _ Pw)) as [L1 L2]. rewrite L1, L2 in H.
+  destruct (parts_nolhs sw' b' (po_nolhs _ Pw')) as [L1' L2']. rewrite L1', L2'.
+  cbn [app] in *. unfold run_block_acc in *.
+  apply rbind_ok in H as ([[s1 e1] al1] & H1 & H).
+  assert (PPw : plan_par_ok p sw) by (eapply plan_par_ok_hk; [|exact PP]; intros m; split; reflexivity).
+  assert (SO : sets_ok p sw b) by (apply (sets_ok_of_plan p sw b h PPw Hst), (bo_height _ _ _ (proj1 Okb))).
+  assert (SO' : sets_ok p sw' b').
+  { apply (sets_ok_of_plan p sw' b' h').
+    - eapply plan_par_ok_hk; [|exact PPw]. intros m. rewrite (nd_ext sw sw' m (sim_nodes _ _ Hsw)). split; reflexivity.
+    - rewrite <- (sim_status _ _ Hsw). exact Hst.
+    - apply (bo_height _ _ _ (proj1 Okb')). }
+  assert (Hl1 : forall x, x ∈ sched1 sw b -> x ∈ b) by (intros x; rewrite (F1 sw b); auto).
+  assert (Hl2 : forall x, x ∈ sched2 sw' b' -> x ∈ b') by (intros x; rewrite (F2 sw' b'); auto).
+  destruct (run_pass_ok_sets fuel p b h _ sw None al _ Pw Okb SO Hl1 H1) as (P1 & E1 & St1). cbn in P1, E1, St1. subst e1.
+  pose proof (run_hk_sets fuel p b h _ sw None al _ Okb SO Hl1 H1) as HK1. cbn in HK1.
+  assert (Hperm : sched1 sw b ≡ₚ sched2 sw' b') by (rewrite (F1 sw b), (F2 sw' b'); exact Hb).
+  assert (Hnd : NoDup (sched1 sw b)) by (rewrite (F1 sw b); apply (bo_nodup _ _ _ (proj1 Okb))).
+  destruct (run_perm_sets fuel p b h _ _ sw sw' None al al' _ Okb SO Hperm Hl1 Hnd Hsw Hal H1)
+    as ([[s1' e1'] al1'] & H1' & S1 & S2 & S3). cbn in S1, S2, S3. subst e1'.
+  destruct (run_pass_ok_sets fuel p b' h' _ sw' None al' _ Pw' Okb' SO' Hl2 H1') as (P1' & _ & _). cbn in P1'.
+  rewrite H1'. cbn [rbind]. change (parLoopS sched1 fuel p s1 al1 = Ok r) in H.
+  eapply (IH s1 s1' al1 al1'); try eassumption.
+  eapply plan_par_ok_hk; [exact HK1|exact PPw].
+Qed.
+
+(** ** C04, pass level: on a bind-free graph the result of ParallelStabilize does not depend on
+    the order in which the nodes of each height block are processed (node functions may set vars). *)
+Theorem pass_schedule_independent_sets sched1 sched2 p s t e :
+  fair sched1 -> fair sched2 -> plan_par_ok p s -> pass_ok s ->
+  parStabilizeS sched1 p s = Ok (t, e) ->
+  exists t', parStabilizeS sched2 p s = Ok (t', e) /\ t ≈ t' /\ (status s = 0 -> e = None).
+Proof.
+  intros F1 F2 PP P H. unfold parStabilizeS in *.
+  destruct (Z.eqb_spec (status s) 0) as [Est|Est]; cbn [negb] in *.
+  2: { injection H as <- <-. exists s. split; [reflexivity|]. split; [apply sim_refl|contradiction]. }
+  set (s0 := emit EvPassStart (s <| status := 1 |>)) in *.
+  assert (P0 : pass_ok s0) by (apply (pass_ok_core s); auto).
+  assert (PP0 : plan_par_ok p s0) by (eapply plan_par_ok_hk; [|exact PP]; intros m; split; reflexivity).
+  apply rbind_ok in H as ([[s1 e1] al1] & H1 & H).
+  destruct (parLoopS_sim2 sched1 sched2 p F1 F2 _ s0 s0 [] [] _ P0 P0 (sim_refl _) (Permutation_refl _) PP0 eq_refl H1)
+    as ([[s1' e1'] al1'] & H1' & (S1 & S2 & S3) & P1 & P1' & E1). cbn in S1, S2, S3, P1, P1', E1. subst e1 e1'.
+  rewrite H1'. cbn [rbind].
+  apply rbind_ok in H as (s2 & H2 & H). apply rbind_ok in H as (s3 & H3 & [= <- <-]).
+  rewrite requeue_char in H2. apply rbind_ok in H2 as (w2 & Hw2 & [= <-]).
+  rewrite requeue_char.
+  assert (Hnd : forall x, nd s1' x = nd s1 x) by (intros x; symmetry; apply nd_ext, (sim_nodes _ _ S1)).
+  assert (Hfil : filter (fun n => height (nd s1 n) <> unset) al1 ≡ₚ filter (fun n => height (nd s1' n) <> unset) al1').
+  { rewrite S3. apply Permutation_refl'. apply list_filter_iff. intros x. rewrite Hnd. reflexivity. }
+  assert (Hpos : forall c, c ∈ filter (fun n => height (nd s1 n) <> unset) al1 -> 0 <= height (nd s1 c)).
+  { intros c [Hc _]%elem_of_list_filter. pose proof (po_hrange _ P1 c). unfold unset in Hc. lia. }
+  destruct (addAll_perm _ _ _ Hfil _ (heap s1') _ Hpos (go_cnt _ (po_graph _ P1)) (sim_heap _ _ S1) Hw2)
+    as (w2' & Hw2' & Sw2).
+  rewrite (addAll_ext _ (fun c => height (nd s1 c))) by (intros; apply f_equal, Hnd).
+  rewrite Hw2'. cbn [rbind].
+  assert (S2' : (s1 <| heap := w2 |>) ≈ (s1' <| heap := w2' |>)) by (apply sim_set_heap; assumption).
+  destruct (stabilizeEnd_sim2 _ _ None s3 S2') as (s3' & H3' & S3'); [| |exact H3|].
+  { intros v Hv. cbn in Hv. rewrite (po_setRemoved _ P1) in Hv. apply (po_setDuring _ P1 v Hv). }
+  { intros m. apply (po_hrange _ P1 m). }
+  rewrite H3'. cbn [rbind]. exists s3'. split; [reflexivity|]. split; [exact S3'|reflexivity].
+Qed.
+
+Lemma plan_par_ok_quiet p s : quiet_all p -> plan_par_ok p s.
+Proof.
+  intros Hq. constructor.
+  - intros n w a Ha. rewrite (Hq n w) in Ha. inversion Ha.
+  - intros n w a v Ha. rewrite (Hq n w) in Ha. inversion Ha.
+  - intros n m w w' a a' v _ _ Ha. rewrite (Hq n w) in Ha. inversion Ha.
+Qed.
+
+Theorem pass_schedule_independent sched1 sched2 p s t e :
+  fair sched1 -> fair sched2 -> quiet_all p -> pass_ok s ->
+  parStabilizeS sched1 p s = Ok (t, e) ->
+  exists t', parStabilizeS sched2 p s = Ok (t', e) /\ t ≈ t' /\ (status s = 0 -> e = None).
+Proof. intros F1 F2 Hq. apply pass_schedule_independent_sets; auto using plan_par_ok_quiet. Qed.
+
+(** the model's own schedule (queue order) against any other *)
+Corollary parStabilize_any_schedule sched p s t e :
+  fair sched -> plan_par_ok p s -> pass_ok s -> parStabilize p s = Ok (t, e) ->
+  exists t', parStabilizeS sched p s = Ok (t', e) /\ t ≈ t'.
+Proof.
+  intros F PP P H. rewrite <- parStabilizeS_queue_order in H.
+  destruct (pass_schedule_independent_sets queue_order sched p s t e) as (t' & H' & S & _); auto.
+  - intros s0 b. reflexivity.
+  - eauto.
+Qed.
+
+Lemma actions_of_in p n w a : a ∈ actions_of p n w -> (n, w, a) ∈ p.
+Proof.
+  unfold actions_of. intros H. apply elem_of_list_omap in H as ([[m w'] a'] & Hin & E).
+  destruct (Nat.eqb_spec m n) as [->|]; [|discriminate]. cbn in E.
+  destruct w, w'; cbn in E; try discriminate; injection E as ->; exact Hin.
+Qed.
+
+Lemma plan_par_okb_sound p s : plan_par_okb p s = true -> plan_par_ok p s.
+Proof.
+  unfold plan_par_okb. rewrite andb_true_iff. intros [H1 H2]. rewrite forallb_forall in H1, H2.
+  constructor.
+  - intros n w a Ha. apply actions_of_in, elem_of_list_In, H1 in Ha. cbn in Ha.
+    apply andb_true_iff in Ha as [Ha _]. destruct a; [discriminate|exact I|exact I].
+  - intros n w a v Ha Hv. apply actions_of_in, elem_of_list_In, H1 in Ha. cbn in Ha.
+    apply andb_true_iff in Ha as [_ Ha]. rewrite tgt_target in Hv. rewrite Hv in Ha. exact Ha.
+  - intros n m w w' a a' v Hne Hh Ha Ha' Hv Hv'. rewrite tgt_target in Hv, Hv'.
+    apply actions_of_in, elem_of_list_In, H2 in Ha. cbn in Ha. rewrite forallb_forall in Ha.
+    apply actions_of_in, elem_of_list_In, Ha in Ha'. cbn in Ha'. rewrite Hv, Hv', Hh in Ha'.
+    rewrite Z.eqb_refl, Nat.eqb_refl in Ha'. destruct (Nat.eqb_spec n m); [contradiction|discriminate].
 Qed.
